@@ -33,7 +33,7 @@ def generate(ctx):
         if cid % 5 == 2:
             # sequence IDs are free text up to the first white space: commas, quotes and other punctuation have to survive
             # the CSV that updown list writes and topranking reads back
-            odd = ['a,b%d', 'q"%d', '"quoted%d"', "hCoV-19/x,y|%d", "it's;%d", ",%d", '%d,', 'x""y%d']
+            odd = ['a,b%d', 'q"%d', '"quoted%d"', "hCoV-19/x,y|%d", "it's;%d", ",%d", '%d,', 'x""y%d', "#q%d", "#%d", ";%d", "'%d", "=%d", "\\%d", "#,%d"]
             queries = [(rng.choice(odd) % i, s) for i, (_, s) in enumerate(queries)]
             targets = [((rng.choice(odd) % (100 + i)) if rng.random() < 0.5 else nm, s) for i, (nm, s) in enumerate(targets)]
         o = udgen.random_opts(rng, len(targets))
